@@ -1,9 +1,482 @@
-/- Tie for C13 (being built) -/
+/-
+Tie for C13: source facts regenerated from /repo on every run (Gen/FactsC13.lean) equal what the
+models in Model/C13.lean (atomic steps, guards of the completions), Model/C13_Cow.lean (memSegment
+over a heap) and Model/C13_Lock.lean (lock acquisition scripts) were written against. An edit to a
+guard, to the order PutB / throttle.Release / Lock, to the copy-on-write conditions or to the order
+in which Rename / Flush / MarshalManifest take their locks breaks one of these `rfl`s; the
+differential run then decides whether behaviour changed.
+-/
 import ArvVerif.Gen.FactsC13
 import ArvVerif.Model.C13
+import ArvVerif.Model.C13_Cow
+import ArvVerif.Model.C13_Lock
 namespace ArvVerif.Tie.C13
 open ArvVerif.Facts.C13
 
+/-- default number of throttle slots; the free-running mode runs with 1-4, the deterministic mode with a large value so that no foreground step blocks -/
 theorem tie_concurrentWriters : concurrentWriters = 4 := rfl
+
+/-- pruneMemSegments: which segments are handed off (mem, full, flushing == nil) and the three guards of the goroutine tail — token, PutB error, index/identity/length (Model.C13 completeRef with plen = some _; tokenizeFrom) -/
+theorem tie_pruneConds : pruneConds =
+  ["if !ok || seg.Len() < maxBlockSize || seg.flushing != nil",
+   "if seg.flushing != done",
+   "if err != nil",
+   "if len(fn.segments) <= idx || fn.segments[idx] != seg || len(seg.buf) != len(buf)"] := rfl
+
+/-- pruneMemSegments: throttle.Acquire before the goroutine; in the goroutine PutB, throttle.Release, THEN fn.Lock and the guards under the lock (the completion is one atomic step) -/
+theorem tie_pruneSkeleton : pruneSkeleton =
+  ["for {",
+   "if !ok || seg.Len() < maxBlockSize || seg.flushing != nil {",
+   "continue",
+   "}",
+   "call make => done",
+   "call fn.fs.throttle().Acquire",
+   "call fn.fs.throttle",
+   "go",
+   "func {",
+   "defer",
+   "call close",
+   "call fn.FS().PutB => locator,_,err",
+   "call fn.fs.throttle().Release",
+   "call fn.fs.throttle",
+   "call fn.Lock",
+   "defer",
+   "call fn.Unlock",
+   "if seg.flushing != done {",
+   "return",
+   "}",
+   "if err != nil {",
+   "return",
+   "}",
+   "if len(fn.segments) <= idx || fn.segments[idx] != seg || len(seg.buf) != len(buf) {",
+   "return",
+   "}",
+   "}",
+   "}"] := rfl
+
+/-- pruneMemSegments: captured idx and buf, seg.flushing = done, and the stored segment that replaces (offset 0, size = length = len(buf)) -/
+theorem tie_pruneAssigns : pruneAssigns =
+  ["idx, buf := idx, seg.buf",
+   "done := make(chan struct{})",
+   "seg.flushing = done",
+   "fn.segments[idx] = storedSegment{ kc: fn.FS(), locator: locator, size: len(buf), offset: 0, length: len(buf), }"] := rfl
+
+/-- waitPrune: collects the channels under the file lock, waits without it (Model.C13 save: every unfinished group completes first) -/
+theorem tie_waitPruneSkeleton : waitPruneSkeleton =
+  ["call fn.Lock",
+   "for {",
+   "if ok && seg.flushing != nil {",
+   "}",
+   "}",
+   "call fn.Unlock",
+   "for {",
+   "}"] := rfl
+
+/-- commitBlock: give up in async mode when an earlier flush is unfinished; the async tail's guards — index in range, segment identity, flushing token (Model.C13 startGroup / completeRef with plen = none) -/
+theorem tie_commitConds : commitConds =
+  ["if len(refs) == 0",
+   "if err != nil",
+   "if !sync && seg.flushingUnfinished()",
+   "if len(refs) == 1",
+   "if block == nil",
+   "if err != nil",
+   "if !sync",
+   "if len(ref.fn.segments) <= ref.idx",
+   "if !ok || seg != segs[idx]",
+   "if seg.flushing != done",
+   "if !sync",
+   "if sync"] := rfl
+
+/-- commitBlock: marking loop, throttle.Acquire, goroutine: PutB, Release, on error return; per ref (async) Lock, guards, Unlock -/
+theorem tie_commitSkeleton : commitSkeleton =
+  ["if len(refs) == 0 {",
+   "return",
+   "}",
+   "if err != nil {",
+   "return",
+   "}",
+   "for {",
+   "call seg.flushingUnfinished",
+   "if !sync && seg.flushingUnfinished() {",
+   "call close",
+   "return",
+   "}",
+   "if len(refs) == 1 {",
+   "} else {",
+   "if block == nil {",
+   "} else {",
+   "}",
+   "}",
+   "}",
+   "call dn.fs.throttle().Acquire",
+   "call dn.fs.throttle",
+   "go",
+   "func {",
+   "defer",
+   "call close",
+   "defer",
+   "call close",
+   "call dn.fs.PutB => locator,_,err",
+   "call dn.fs.throttle().Release",
+   "call dn.fs.throttle",
+   "if err != nil {",
+   "return",
+   "}",
+   "for {",
+   "if !sync {",
+   "call ref.fn.Lock",
+   "if len(ref.fn.segments) <= ref.idx {",
+   "call ref.fn.Unlock",
+   "continue",
+   "} else {",
+   "if !ok || seg != segs[idx] {",
+   "call ref.fn.Unlock",
+   "continue",
+   "} else {",
+   "if seg.flushing != done {",
+   "call ref.fn.Unlock",
+   "continue",
+   "}",
+   "}",
+   "}",
+   "}",
+   "if !sync {",
+   "call ref.fn.Unlock",
+   "}",
+   "}",
+   "}",
+   "if sync {",
+   "return",
+   "}",
+   "return"] := rfl
+
+/-- commitBlock: seg.flushing = done for every ref, block = concatenation, offsets; the stored segment uses offsets[idx] and the CURRENT len(data) -/
+theorem tie_commitAssigns : commitAssigns =
+  ["segs := make([]*memSegment, 0, len(refs))",
+   "offsets := make([]int, 0, len(refs))",
+   "seg.flushing = done",
+   "offsets = append(offsets, len(block))",
+   "block = seg.buf",
+   "block = append(make([]byte, 0, bufsize), seg.buf...)",
+   "block = append(block, seg.buf...)",
+   "segs = append(segs, seg)",
+   "blocksize := len(block)",
+   "data := ref.fn.segments[ref.idx].(*memSegment).buf",
+   "ref.fn.segments[ref.idx] = storedSegment{ kc: dn.fs, locator: locator, size: blocksize, offset: offsets[idx], length: len(data), }"] := rfl
+
+/-- memSegment.flushingUnfinished: nil → false; closed → reset to nil, false; else true (Model.C13 isOpenMark / tokOpen) -/
+theorem tie_flushingUnfinishedText : flushingUnfinishedText = "{ if me.flushing == nil { return false } select { case <-me.flushing: me.flushing = nil return false default: return true } }" := rfl
+
+/-- memSegment.Truncate: new buffer iff n > cap || (flushing != nil && n > len); in-place reslice + zero fill otherwise (Model.C13_Cow step truncate; C08 memTruncate) -/
+theorem tie_memTruncateText : memTruncateText = "{ if n > cap(me.buf) || (me.flushing != nil && n > len(me.buf)) { newsize := 1024 for newsize < n { newsize = newsize << 2 } newbuf := make([]byte, n, newsize) copy(newbuf, me.buf) me.buf, me.flushing = newbuf, nil } else { oldlen := len(me.buf) me.buf = me.buf[:n] for i := oldlen; i < n; i++ { me.buf[i] = 0 } } }" := rfl
+
+/-- memSegment.WriteAt: overflow panic; copy to a new buffer and reset flushing when flushing != nil; then copy in place (Model.C13_Cow step writeAt; C08 memWriteAt) -/
+theorem tie_memWriteAtText : memWriteAtText = "{ if off+len(p) > len(me.buf) { panic(\"overflowed segment\") } if me.flushing != nil { me.buf, me.flushing = append([]byte(nil), me.buf...), nil } copy(me.buf[off:], p) }" := rfl
+
+/-- memSegment.Slice: a fresh buffer and a fresh memSegment with flushing nil (Model.C13_Cow step slice) -/
+theorem tie_memSliceText : memSliceText = "{ if length < 0 { length = len(me.buf) - off } buf := make([]byte, length) copy(buf, me.buf[off:]) return &memSegment{buf: buf} }" := rfl
+
+/-- collectionFileSystem.Flush: lock the directory, then its children in sortedNames order, then dn.flush (Model.C13_Lock flushScript; Model.C13 doFlushAsync) -/
+theorem tie_flushSkeleton : flushSkeleton =
+  ["call rlookup => node,err",
+   "if err != nil {",
+   "return",
+   "}",
+   "if !ok {",
+   "return",
+   "}",
+   "call dn.Lock",
+   "defer",
+   "call dn.Unlock",
+   "call dn.sortedNames => names",
+   "if path != \"\" {",
+   "for {",
+   "if ok {",
+   "}",
+   "}",
+   "}",
+   "for {",
+   "call child.Lock",
+   "defer",
+   "call child.Unlock",
+   "}",
+   "call dn.flush",
+   "return"] := rfl
+
+/-- MarshalManifest: root lock, then dirnode.marshalManifest -/
+theorem tie_marshalSkeleton : marshalSkeleton =
+  ["call fs.fileSystem.root.Lock",
+   "defer",
+   "call fs.fileSystem.root.Unlock",
+   "call fs.fileSystem.root.(*dirnode).marshalManifest",
+   "return"] := rfl
+
+/-- dirnode.marshalManifest: sortedNames, waitPrune on file children (momentary child lock under the parent), lock all children, recurse / flush(sync) in goroutines -/
+theorem tie_dirMarshalSkeleton : dirMarshalSkeleton =
+  ["defer",
+   "if len(dn.inodes) == 0 {",
+   "if prefix == \".\" {",
+   "return",
+   "}",
+   "return",
+   "}",
+   "call dn.sortedNames => names",
+   "for {",
+   "if ok {",
+   "call fn.waitPrune",
+   "}",
+   "}",
+   "for {",
+   "call node.Lock",
+   "defer",
+   "call node.Unlock",
+   "case {",
+   "}",
+   "case {",
+   "}",
+   "case {",
+   "}",
+   "}",
+   "for {",
+   "call cg.Go",
+   "func {",
+   "return",
+   "}",
+   "}",
+   "call cg.Go",
+   "func {",
+   "call dn.flush => err",
+   "if err != nil {",
+   "return",
+   "}",
+   "for {",
+   "if len(node.segments) == 0 {",
+   "continue",
+   "}",
+   "for {",
+   "case {",
+   "if len(blocks) > 0 && blocks[len(blocks)-1] == seg.locator {",
+   "} else {",
+   "}",
+   "if prev >= 0 && fileparts[prev].name == name && fileparts[prev].offset+fileparts[prev].length == next.offset {",
+   "} else {",
+   "}",
+   "}",
+   "case {",
+   "}",
+   "}",
+   "}",
+   "for {",
+   "}",
+   "if len(filetokens) == 0 {",
+   "return",
+   "} else {",
+   "if len(blocks) == 0 {",
+   "}",
+   "}",
+   "return",
+   "}",
+   "call cg.Wait => err",
+   "return"] := rfl
+
+/-- dirnode.flush: for a child directory lock the grandchildren in sorted order before recursing in a goroutine; commitBlock calls via goCommit -/
+theorem tie_dirFlushSkeleton : dirFlushSkeleton =
+  ["defer",
+   "func {",
+   "call cg.Go",
+   "func {",
+   "call dn.commitBlock",
+   "return",
+   "}",
+   "}",
+   "for {",
+   "case {",
+   "call node.sortedNames => grandchildNames",
+   "for {",
+   "call grandchild.Lock",
+   "defer",
+   "call grandchild.Unlock",
+   "}",
+   "call cg.Go",
+   "func {",
+   "call node.flush",
+   "return",
+   "}",
+   "}",
+   "case {",
+   "for {",
+   "case {",
+   "if !ok {",
+   "if err != nil {",
+   "return",
+   "}",
+   "}",
+   "}",
+   "case {",
+   "if seg.Len() > maxBlockSize/2 {",
+   "call goCommit",
+   "continue",
+   "}",
+   "if pendingLen+seg.Len() > maxBlockSize {",
+   "call goCommit",
+   "}",
+   "}",
+   "case {",
+   "}",
+   "}",
+   "}",
+   "}",
+   "if opts.shortBlocks {",
+   "call goCommit",
+   "}",
+   "call cg.Wait",
+   "return"] := rfl
+
+/-- Rename: fs-wide mutex first (cfs.locker().Lock), needLock walk via node.Parent(), locks taken from the end of needLock skipping locked ones, then Child/SetParent of the moved inode (Model.C13_Lock renameScript) -/
+theorem tie_renameSkeleton : renameSkeleton =
+  ["if oldname == \"\" || oldname == \".\" || oldname == \"..\" {",
+   "return",
+   "}",
+   "call fs.openFile => olddirf,err",
+   "if err != nil {",
+   "return",
+   "}",
+   "defer",
+   "if newname == \".\" || newname == \"..\" {",
+   "return",
+   "} else {",
+   "if newname == \"\" {",
+   "}",
+   "}",
+   "call fs.openFile => newdirf,err",
+   "if err != nil {",
+   "return",
+   "}",
+   "defer",
+   "call cfs.locker().Lock",
+   "call cfs.locker",
+   "defer",
+   "call cfs.locker().Unlock",
+   "call cfs.locker",
+   "if cfs != newdirf.inode.FS() {",
+   "return",
+   "}",
+   "for {",
+   "call node.Parent",
+   "call node.Parent().FS",
+   "call node.Parent",
+   "for {",
+   "call node.Parent => node",
+   "}",
+   "}",
+   "for {",
+   "if !locked[n] {",
+   "call n.Lock",
+   "defer",
+   "call n.Unlock",
+   "}",
+   "}",
+   "call olddirf.inode.Child => _,err",
+   "func {",
+   "if oldinode == nil {",
+   "return",
+   "}",
+   "if locked[oldinode] {",
+   "return",
+   "}",
+   "if oldinode.FS() != cfs && newdirf.inode != olddirf.inode {",
+   "return",
+   "}",
+   "call newdirf.inode.Child => accepted,err",
+   "func {",
+   "if existing != nil && existing.IsDir() {",
+   "return",
+   "}",
+   "return",
+   "}",
+   "if err != nil {",
+   "return",
+   "}",
+   "call accepted.SetParent",
+   "return",
+   "}",
+   "return"] := rfl
+
+/-- Rename: the needLock loop bounds and the locked[oldinode] check that the moved inode is not one of the locked ancestors -/
+theorem tie_renameConds : renameConds =
+  ["if oldname == \"\" || oldname == \".\" || oldname == \"..\"",
+   "if err != nil",
+   "if newname == \".\" || newname == \"..\"",
+   "if newname == \"\"",
+   "if err != nil",
+   "if cfs != newdirf.inode.FS()",
+   "for node.Parent() != node && node.Parent().FS() == node.FS()",
+   "for i >= 0",
+   "if !locked[n]",
+   "if oldinode == nil",
+   "if locked[oldinode]",
+   "if oldinode.FS() != cfs && newdirf.inode != olddirf.inode",
+   "if existing != nil && existing.IsDir()",
+   "if err != nil"] := rfl
+
+/-- dirnode.sortedNames: children in name order (kids d of the lock model, sortedFiles of C08) -/
+theorem tie_sortedNamesText : sortedNamesText = "{ names := make([]string, 0, len(dn.inodes)) for name := range dn.inodes { names = append(names, name) } sort.Strings(names) return names }" := rfl
+
+/-- throttle.Acquire = send on the buffered channel -/
+theorem tie_throttleAcquireText : throttleAcquireText = "{ t.c <- struct{}{} }" := rfl
+
+/-- throttle.Release = receive from it -/
+theorem tie_throttleReleaseText : throttleReleaseText = "{ <-t.c }" := rfl
+
+/-- newThrottle(n): capacity n bounds concurrent background writers (free mode oracle: max concurrent PutB <= throttle) -/
+theorem tie_newThrottleText : newThrottleText = "{ return &throttle{c: make(chan struct{}, n)} }" := rfl
+
+/-- filehandle.Write holds the inode's write lock around O_APPEND repositioning and inode.Write (one atomic step: Model.C13 doWrite) -/
+theorem tie_handleWriteSkeleton : handleWriteSkeleton =
+  ["if !f.writable {",
+   "return",
+   "}",
+   "call f.inode.Lock",
+   "defer",
+   "call f.inode.Unlock",
+   "if ok && f.append {",
+   "}",
+   "call f.inode.Write => n,f.ptr,err",
+   "return"] := rfl
+
+/-- filehandle.Read holds the read lock around inode.Read -/
+theorem tie_handleReadSkeleton : handleReadSkeleton =
+  ["if !f.readable {",
+   "return",
+   "}",
+   "call f.inode.RLock",
+   "defer",
+   "call f.inode.RUnlock",
+   "call f.inode.Read => n,f.ptr,err",
+   "return"] := rfl
+
+/-- filenode.Truncate holds the write lock around truncate -/
+theorem tie_nodeTruncateSkeleton : nodeTruncateSkeleton =
+  ["call fn.Lock",
+   "defer",
+   "call fn.Unlock",
+   "call fn.truncate",
+   "return"] := rfl
+
+/-- the two guards of the async commitBlock tail and the three of pruneMemSegments that the model's
+single token test stands for are all present, in this order -/
+theorem tie_guard_order :
+    pruneConds.drop 1 = ["if seg.flushing != done", "if err != nil",
+      "if len(fn.segments) <= idx || fn.segments[idx] != seg || len(seg.buf) != len(buf)"] ∧
+    (commitConds.drop 7).take 3 = ["if len(ref.fn.segments) <= ref.idx", "if !ok || seg != segs[idx]",
+      "if seg.flushing != done"] := by decide
+
+/-- in both goroutines the throttle slot is released after PutB and BEFORE the file lock is taken, so
+a writer blocked in Acquire while holding a file lock is always released by a PutB returning -/
+theorem tie_release_before_lock :
+    (pruneSkeleton.dropWhile (· != "call fn.FS().PutB => locator,_,err")).take 4 =
+      ["call fn.FS().PutB => locator,_,err", "call fn.fs.throttle().Release", "call fn.fs.throttle", "call fn.Lock"] ∧
+    (commitSkeleton.dropWhile (· != "call dn.fs.PutB => locator,_,err")).take 3 =
+      ["call dn.fs.PutB => locator,_,err", "call dn.fs.throttle().Release", "call dn.fs.throttle"] := by decide
 
 end ArvVerif.Tie.C13
